@@ -107,8 +107,8 @@ def selftest(ctx, corrupt):
     ctx.build_harness()
     base = ctx.scratch + "/self.ndjson"
     ctx.harness(["tree", "gen", base], env={"VERIF_SHARDS": "64"})
-    lines = open(base + ".0").read().splitlines()[:600]
-    rl = open(base + ".replay.0").read().splitlines()[:600]
+    lines = open(base + ".0").read().split("\n")[:600]
+    rl = open(base + ".replay.0").read().split("\n")[:600]
     bad = 0
     out = []
     for i, ln in enumerate(lines):
